@@ -860,3 +860,36 @@ func copyCases(g *core.Graph, at *core.V, e ast.Expr) []vcase {
 	}
 	return cs
 }
+
+// allowedOrOnlyCalledBy: fn is in the table, or fn is an unexported helper
+// all of whose callers (in its package, at least one) are: a table of
+// functions allowed to do something keeps its meaning when the body of a
+// listed function is split into helpers.
+func allowedOrOnlyCalledBy(c *core.Ctx, fn *core.Func, listed func(key string) bool, depth int) bool {
+	if listed(fn.Key) {
+		return true
+	}
+	if depth >= 2 || fn.Obj.Exported() {
+		return false
+	}
+	n := 0
+	for _, other := range c.Prog.Funcs(fn.Pkg) {
+		if other == fn {
+			continue
+		}
+		calls := false
+		for _, cs := range core.CallsIn(other.Info(), other.Decl.Body, true) {
+			if cs.Fn == fn.Obj {
+				calls = true
+			}
+		}
+		if !calls {
+			continue
+		}
+		if !allowedOrOnlyCalledBy(c, other, listed, depth+1) {
+			return false
+		}
+		n++
+	}
+	return n > 0
+}
